@@ -5,7 +5,7 @@
    open_registry() reads that file; a fresh instance of class k is set from the cache". *)
 From Coq Require Import List NArith ZArith.
 Import ListNotations.
-Require Import Base.Wire Base.PyStr C15.Model C15.Lemmas C15.Names C15.Codec C15.Split C15.File C15.FileMulti C15.Tree C15.Final C15.Atomic C15.Gen C15.Restart.
+Require Import Base.Wire Base.PyStr C15.Model C15.Lemmas C15.Names C15.Codec C15.Split C15.File C15.FileMulti C15.Tree C15.Final C15.Atomic C15.Gen C15.Restart C15.Wrapped C15.NormRT.
 Require Import gen.T15.
 
 (* ---- names: split inverts join for every non-empty list of names (full statement since the
@@ -251,3 +251,56 @@ Theorem C15_network_only_kept :
   save_var ex_d (var_state (PS [122]) ex_netonly) = var_lines ex_d (PS [122]) ex_netonly.
 Proof. exact ex_netonly_kept. Qed.
 Print Assumptions C15_network_only_kept.
+
+(* ---- NormalizedString: the wrapped value lines of serialize().  textwrap.wrap is an input (chunks).
+   chunk_ok c = not empty, does not start with a blank, no CR/LF, an even number of backslashes at its end.
+   Whatever chunks textwrap produced, the physical lines written for `name` are read as ONE logical
+   line `name: chunk1<indent>chunk2<indent>...`: no line is taken for a comment or an empty line, none
+   is dropped, and the lines of the next variable are read untouched. *)
+Theorem C15_wrapped_value_reassembled :
+  forall name chunks more,
+  prefix_ok (name ++ [COLON; SP]) = true -> chunks <> [] -> forallb chunk_ok chunks = true ->
+  read_lines [] (wrapped_lines name chunks ++ more) =
+  (do kv <- parse_acc (name ++ [COLON; SP] ++ glue (indent_of name) chunks);
+   do kvs <- read_lines [] more; Ok (kv :: kvs)).
+Proof. exact wrapped_reassembled. Qed.
+Print Assumptions C15_wrapped_value_reassembled.
+
+(* a continuation line is never taken for a comment (nor for a blank line), whatever its first word *)
+Theorem C15_continuation_never_comment :
+  forall name c rest, chunk_ok c = true ->
+  startswith [HASH] (indent_of name ++ c ++ rest) = false /\ strip_ws (indent_of name ++ c ++ rest) <> [].
+Proof. exact continuation_never_comment. Qed.
+Print Assumptions C15_continuation_never_comment.
+
+(* the comment test must look at the first character of the physical line only: after an lstrip a
+   continuation line whose first word starts with # would be dropped *)
+Theorem C15_lstrip_comment_test_refuted :
+  chunk_ok [HASH; 99] = true /\ startswith [HASH] (lstrip_ws (indent_of [118] ++ [HASH; 99] ++ [BSL])) = true.
+Proof. exact lstrip_test_would_drop. Qed.
+Print Assumptions C15_lstrip_comment_test_refuted.
+
+(* ---- NormalizedString, value level (since the repair of C15.F28 textwrap cuts at blanks only).
+   v is a normalized value (normalize v = v: words separated by single blanks, no blank at the ends);
+   W are the words of the text handed to textwrap BEFORE escaping (string_str v: v itself, or its
+   repr when it looks like a quoted string); ws is ANY regrouping of those words into non-empty
+   chunks, in order; chunks_of ws = the escaped chunks.  Saving `name` with these chunks, loading the
+   file and setting a fresh instance gives back exactly v. *)
+Theorem C15_normalized_roundtrip :
+  forall name fresh v W ws,
+  name_ok name = true -> vstr v = true -> normalize v = v ->
+  words_ok W -> join [SP] W = string_str v -> chunking W ws ->
+  norm_reload name (chunks_of ws) fresh = Ok v.
+Proof. exact normalized_roundtrip. Qed.
+Print Assumptions C15_normalized_roundtrip.
+
+(* the empty value (no chunk at all) *)
+Theorem C15_normalized_roundtrip_empty :
+  forall name fresh, name_ok name = true -> norm_reload name [] fresh = Ok [].
+Proof. exact normalized_roundtrip_empty. Qed.
+Print Assumptions C15_normalized_roundtrip_empty.
+
+(* every text of words is a normalized value *)
+Theorem C15_normalize_words : forall V, words_ok V -> normalize (join [SP] V) = join [SP] V.
+Proof. exact normalize_words. Qed.
+Print Assumptions C15_normalize_words.
